@@ -106,7 +106,7 @@ func genC18Root(t *rapid.T) C18Case {
 	}
 	starts = append(starts, all[0]+"/does/not/exist")
 	c.Start = rapid.SampledFrom(starts).Draw(t, "start")
-	c.Via = rapid.SampledFrom([]string{"d-abs", "d-abs", "d-rel", "d-rel-dots", "cwd"}).Draw(t, "via")
+	c.Via = rapid.SampledFrom([]string{"d-abs", "d-abs", "d-rel", "d-rel-dots", "cwd", "d-abs-slash", "d-abs-unclean", "d-rel-slash"}).Draw(t, "via")
 	return c
 }
 
@@ -471,6 +471,13 @@ func checkC18Root(c C18Case) Outcome {
 	switch c.Via {
 	case "d-abs":
 		r = cli.Run(cli.Opt{Dir: sb.Root, Timeout: 30 * time.Second}, "-d", sb.Path(start), "regex", "generate", "932100")
+	case "d-abs-slash":
+		// the same directory spelled with a trailing slash, or with a doubled one inside
+		r = cli.Run(cli.Opt{Dir: sb.Root, Timeout: 30 * time.Second}, "-d", sb.Path(start)+"/", "regex", "generate", "932100")
+	case "d-abs-unclean":
+		r = cli.Run(cli.Opt{Dir: sb.Root, Timeout: 30 * time.Second}, "-d", sb.Root+"//./"+start+"/.", "regex", "generate", "932100")
+	case "d-rel-slash":
+		r = cli.Run(cli.Opt{Dir: sb.Root, Timeout: 30 * time.Second}, "-d", start+"/", "regex", "generate", "932100")
 	case "d-rel":
 		r = cli.Run(cli.Opt{Dir: sb.Root, Timeout: 30 * time.Second}, "-d", start, "regex", "generate", "932100")
 	case "d-rel-dots":
